@@ -416,7 +416,8 @@ U("is_nothrow_default_constructible is_nothrow_copy_constructible is_nothrow_mov
 U("is_nothrow_copy_assignable is_nothrow_move_assignable is_nothrow_destructible", "V", d_noinc, "u7")
 U("is_swappable is_nothrow_swappable", "V", d_noinc, "u8")
 U("remove_const remove_volatile remove_cv add_const add_volatile add_cv remove_reference add_lvalue_reference", "T", d_any, "t0")
-U("add_rvalue_reference remove_cvref remove_pointer add_pointer remove_extent remove_all_extents decay type_identity", "T", d_any, "t1")
+U("add_rvalue_reference remove_cvref remove_pointer add_pointer", "T", d_any, "t0")
+U("remove_extent remove_all_extents decay type_identity", "T", d_any, "t1")
 U("make_signed make_unsigned", "T", d_make_signed, "t1")
 U("underlying_type common_type common_reference unwrap_reference unwrap_ref_decay", "T", d_noinc, "t1")
 U("declval", "X", d_declval, "t1")
@@ -443,7 +444,22 @@ BINARY_CONCEPTS = ("same_as derived_from convertible_to common_reference_with co
                    "constructible_from invocable regular_invocable predicate").split()
 TERNARY_CONCEPTS = "relation equivalence_relation strict_weak_order constructible_from invocable predicate".split()
 
-PARTS = ["u0", "u1", "u2", "u3", "u4", "u5", "u6", "u7", "u8", "t0", "t1", "b0", "b1", "b2", "b3", "b4", "c0", "m0"]
+PARTS = ["u0", "u1", "u2", "u3", "u4", "u5", "u6", "u7", "u8", "t0", "t1", "b0", "b1", "b2", "b3", "b4", "c0", "c1", "m0"]
+
+
+NOTHROW_CTOR = ("is_nothrow_constructible", "is_nothrow_default_constructible", "is_nothrow_copy_constructible",
+                "is_nothrow_move_constructible")
+
+
+def std_unspecified(trait, ts):
+    """(trait, types) combinations for which the standard leaves the answer open or libstdc++ 12 is known to deviate from
+    it; a conforming etl could legitimately differ from the oracle there, so they are not generated (soundness first)"""
+    for t in ts:
+        # LWG 2116: whether is_nothrow_constructible considers the destructor is unresolved; GCC 12's builtin answers
+        # differently for T and T[N] when ~T() is noexcept(false)
+        if trait in NOTHROW_CTOR and t.base.cpp == "z::ThrowDtor" and ("[3]" in t.decs or "[]" in t.decs):
+            return True
+    return False
 
 
 class Ob:
@@ -489,15 +505,15 @@ def unary_tag(trait, t):
 # ------------------------------------------------------------------------------------------------ sampling sizes
 SIZES = {
     # unary: all depth-0 types always; n1/n2 sampled depth-1/depth-2 types per trait (None = all)
-    "quick": {"u_n1": 60, "u_n2": 60, "pairs": 160, "cpairs": 120, "ratio_n": 14, "lists": 6},
-    "thorough": {"u_n1": None, "u_n2": 900, "pairs": 2500, "cpairs": 1500, "ratio_n": 44, "lists": 40},
+    "quick": {"u_n1": 60, "u_n2": 60, "c_n1": 40, "c_n2": 40, "pairs": 300, "cpairs": 150, "ratio_n": 14, "lists": 6},
+    "thorough": {"u_n1": None, "u_n2": 900, "c_n1": None, "c_n2": 900, "pairs": 2500, "cpairs": 1500, "ratio_n": 44, "lists": 40},
 }
 
 
-def unary_types(lv, dom, trait, seed, tier):
+def unary_types(lv, dom, trait, seed, tier, keys=("u_n1", "u_n2")):
     sz = SIZES[tier]
     out = [t for t in lv[0] if dom(t)]
-    for level, key in ((1, "u_n1"), (2, "u_n2")):
+    for level, key in ((1, keys[0]), (2, keys[1])):
         pool = [t for t in lv[level] if dom(t)]
         n = sz[key]
         if n is None or n >= len(pool):
@@ -643,9 +659,10 @@ def build_obligations(part, lv, allt, names, seed, tier):
                                   "c15::%s_%s<%s>()" % (kind, trait, A(t)), "binary"))
     elif part == "c0":
         for cn in UNARY_CONCEPTS:
-            for t in unary_types(lv, d_noinc, "concept/" + cn, seed, tier):
+            for t in unary_types(lv, d_noinc, "concept/" + cn, seed, tier, ("c_n1", "c_n2")):
                 obs.append(Ob("%s<%s>" % (cn, t.name), unary_tag(cn, t), t.flags(),
                               "c15::C_%s<%s>()" % (cn, A(t)), "concepts"))
+    elif part == "c1":
         for cn in BINARY_CONCEPTS:
             what = "invocable" if cn in ("invocable", "regular_invocable", "predicate") else "generic"
             for a, b in gen_pairs(lv, names, seed, what, sz["cpairs"]):
@@ -784,9 +801,14 @@ def build_obligations(part, lv, allt, names, seed, tier):
         obs.append(Ob("is_constant_evaluated()", "is_constant_evaluated", 0, "c15::X_is_constant_evaluated()", "misc"))
     else:
         raise SystemExit("unknown part " + part)
-    # unique names
+    # unique names; drop what the standard leaves unspecified
     seen, out = set(), []
     for o in obs:
+        m = re.match(r"^([A-Za-z_0-9]+)<", o.name)
+        if m and m.group(1) in NOTHROW_CTOR:
+            used = [allt[int(x)] for x in re.findall(r"c15t::T(\d+)", o.expr)]
+            if std_unspecified(m.group(1), used):
+                continue
         if o.name not in seen:
             seen.add(o.name)
             out.append(o)
@@ -836,9 +858,9 @@ def resolve_name(name, part, lv, allt, names, seed):
                             continue
                         tag = pair_tag(tr, ts)
                         return Ob(name, tag, pair_flags(ts), "c15::%s_%s<%s>()" % (kind, tr, ", ".join(A(t) for t in ts)), "binary")
-        if part == "c0" and trait in set(UNARY_CONCEPTS + BINARY_CONCEPTS + TERNARY_CONCEPTS):
+        if part in ("c0", "c1") and trait in set(UNARY_CONCEPTS + BINARY_CONCEPTS + TERNARY_CONCEPTS):
             for ts in split_args(args, names):
-                if any(t.inc for t in ts):
+                if any(t.inc for t in ts) or (len(ts) == 1) != (part == "c0"):
                     continue
                 tag = pair_tag(trait, ts)
                 return Ob(name, tag, pair_flags(ts), "c15::C_%s<%s>()" % (trait, ", ".join(A(t) for t in ts)), "concepts")
